@@ -24,7 +24,8 @@ EXPLANATION = (
     'handlers that return the raised ExcelError; (C07.6) operator nodes evaluate every operand on every evaluation '
     'and hand both values to the operator function; (C07.7) every validated function with scalar parameters only '
     'returns an error argument - that very object - at every position, the leftmost of two.'
-    ' (C07.8) a witness workbook with the seven error codes as literals, cell values and results through operators, scalar functions, dependants and inspectors; (C07.3) additionally 28 odd texts (percent signs, exponents, underscores, inf/nan spellings) against four partners.')
+    ' (C07.8) a witness workbook with the seven error codes as literals, cell values and results through operators, scalar functions, dependants and inspectors; (C07.3) additionally 28 odd texts (percent signs, exponents, underscores, inf/nan spellings) against four partners.'
+    ' (C07.8) also chains of three to six operands with several errors, whole numbers beyond the range of a double, an error next to a blank under the ordering comparisons, typed constant cells under the inspectors.')
 NOT_DECIDED = ('value-level "leftmost error" for nested expressions; every function x position x code combination '
                'beyond what C07.1/C07.2/C07.5 make structural')
 TRUSTED = ['model of inspect.signature(...).bind: arguments in signature order', 'workbook scenarios: pandas storage of range arrays as row-major rows, numpy on Python numbers (IEEE results, 64-bit integer wrap), dateutil.parser.parse rejecting texts that are no dates, openpyxl address arithmetic, inspect.signature built from the FunctionDef']
